@@ -578,6 +578,10 @@ def classify(fam, case, how, cfg, strategy, clauses, obs):
         return "concat:axis0:%s:%s:%s" % (case["join"], strategy, group)
     if fam == "concat1":
         return "concat:axis1:%s:%s" % (case["join"], group)
+    if case["mode"] == "cc" and (0 in cfg["llay"] or cfg["rlay"][0] == 0 or cfg["rlay"][-1] == 0):
+        # one root cause (set_index(sorted=True) drops empty partitions), seen as wrong rows / metadata / AssertionError / missing
+        # dependency; empty partitions in the MIDDLE of the right operand are handled and stay judged
+        return "merge_asof:cc:empty-partition"
     return "merge_asof:%s:%s:%s:%s" % (case["mode"], case["direction"], "by" if case["by"] else "noby", group)
 
 
@@ -648,18 +652,53 @@ def random_items(rng, n):
     return out
 
 
-def asof_config(rng, layouts, case):
-    # index mode: sorted operands with known divisions (or one partition each); column mode: dask sorts the column
-    # itself with set_index(sorted=True), which needs non-empty partitions that do not share a key
+def asof_config(rng, layouts, case, llay=None, rlay=None):
+    """index mode: sorted operands with known divisions (or one partition each); column mode: dask sorts the column itself
+    with set_index(sorted=True).  Empty partitions are allowed everywhere (dask documents no limitation).  llay / rlay:
+    a given layout (the empty-partition stratum)."""
     cfg = two_sided_config(rng, layouts, case, True)
-    for side in ("l", "r"):
+    for side, given in (("l", llay), ("r", rlay)):
         rows = case["L" if side == "l" else "R"]
-        if cfg[side + "divs"] is None or (case["mode"] == "cc" and 0 in cfg[side + "lay"]):
+        if given is not None:
+            cfg[side + "lay"] = list(given)
+            cfg[side + "divs"] = make_divs(_labels(rows), list(given), rng)
+        if cfg[side + "divs"] is None:
             cfg[side + "lay"] = [len(rows)]
             cfg[side + "divs"] = make_divs(_labels(rows), [len(rows)], rng)
         if case["mode"] == "cc" and rng.random() < 0.5:
             cfg[side + "divs"] = None
     return cfg
+
+
+def empties_layouts(n):
+    """Layouts of n >= 1 rows with empty partitions in every position: first, middle, two in a row, last, all around."""
+    out = []
+    for a in range(1, n):
+        b = n - a
+        out += [[0, a, b], [a, 0, b], [a, 0, 0, b], [a, b, 0], [0, a, 0, b, 0], [0, 0, a, b]]
+    return out or [[0, n], [n, 0], [0, n, 0], [0, 0, n]]
+
+
+def asof_stratum(rng, layouts, cases, per_combo):
+    """The merge_asof stratum that is never sampled out: for every (mode, direction, by, allow_exact_matches, tolerance) `per_combo`
+    cases whose RIGHT operand (and, every other time, the left one too) is laid out with empty partitions, the positions
+    of the empty partitions rotating through first / middle / consecutive / last."""
+    bycombo = {}
+    for c in cases:
+        k = c["c"]
+        if k["fam"] == "asof" and len(k["R"]) >= 2:
+            bycombo.setdefault((k["mode"], k["direction"], bool(k["by"]), bool(k["exact"]), k["tol"]), []).append(c)
+    items, turn = [], 0
+    for combo in sorted(bycombo):
+        pool = bycombo[combo]
+        for c in (pool if len(pool) <= per_combo else rng.sample(pool, per_combo)):
+            case = c["c"]
+            rl = empties_layouts(len(case["R"]))
+            ll = empties_layouts(len(case["L"]))
+            cfg = asof_config(rng, layouts, case, llay=ll[turn % len(ll)] if turn % 2 else None, rlay=rl[turn % len(rl)])
+            turn += 1
+            items.append(("s%d" % len(items), "asof", case, "", cfg, c["e"]))
+    return items
 
 
 # ----------------------------------------------------------------------------- TLC
@@ -738,6 +777,10 @@ def plan_items(ctx, cases, quota, per_case_hows):
                 items.append(("x%d" % len(items), "concat1", case, "", two_sided_config(rng, lay1 if single else layouts, case, not single or rng.random() < 0.5), exp))
             else:
                 items.append(("a%d" % len(items), "asof", case, "", asof_config(rng, layouts, case), exp))
+    if "asof:empties" in quota:
+        st = asof_stratum(rng, layouts, cases, quota["asof:empties"])
+        ctx.extra["replayed_asof:empty-partition-stratum"] = len(st)
+        items += st
     return items
 
 
@@ -835,8 +878,9 @@ def run(ctx):
     quota = {"merge:cc": 550 if q else 2200, "merge:kk": 300 if q else 1200, "merge:pre": 500 if q else 2500,
              "merge:ii": 250 if q else 1000, "merge:ii:sorted": 400 if q else 1500,
              "merge:ic": 200 if q else 900, "merge:ci": 200 if q else 900,
-             "concat": 300 if q else 3000, "concat1": 100 if q else 900, "asof": 300 if q else 3000}
+             "concat": 300 if q else 3000, "concat1": 100 if q else 900, "asof": 150 if q else 2500}
     quota = {k: max(20, int(v * dev)) for k, v in quota.items()}
+    quota["asof:empties"] = 3 if q else 12           # per (mode, direction, by, allow_exact_matches, tolerance): never sampled out
     items = plan_items(ctx, cases, quota, 1 if q else "all")
     items += random_items(ctx.rng, 150 if q else 2500)
     _tick(ctx, "planned %d items from %d cases" % (len(items), len(cases)))
@@ -898,10 +942,11 @@ def selftest(ctx):
     import dask.dataframe.dask_expr._merge_asof as ma
     import dask.dataframe.multi as multi
     rng = ctx.rng
-    consts = dict(bounds(ctx), MaxL=3, MaxR=3, Full=2, Mod=24, HeavyMod=400, CMod=11, AMod=200)
-    cases = enumerate_cases(ctx, consts, ["merge", "concat", "asof", "layouts"], "selftest:cases")
+    consts = dict(bounds(ctx), MaxL=3, MaxR=3, Full=2, Mod=24, HeavyMod=400, CMod=11, AMod=200, PMod=5, PreMod=29)
+    cases = enumerate_cases(ctx, consts, ["merge", "premerge", "concat", "asof", "layouts"], "selftest:cases")
     layouts = {c["c"]["n"]: c["e"] for c in cases if c["c"]["fam"] == "layouts"}
-    quota = {"merge:cc": 90, "merge:ii": 15, "merge:ii:sorted": 25, "merge:ic": 20, "merge:ci": 15, "concat": 25, "asof": 20}
+    quota = {"merge:cc": 70, "merge:kk": 30, "merge:pre": 140, "merge:ii": 15, "merge:ii:sorted": 25, "merge:ic": 15, "merge:ci": 15,
+             "concat": 25, "asof": 20, "asof:empties": 1}
     items = plan_items(ctx, cases, quota, 1)
     # directed configurations: concat operands whose single-partition divisions touch; asof with the right operand cut
     # into one-row partitions with known divisions (matches then lie in the previous partition)
@@ -932,7 +977,8 @@ def selftest(ctx):
 
     def outcome(fams):
         """signatures of the violations of the (possibly mutated) code on the items of the given families, known findings excluded."""
-        sub = [it for it in items if it[1] in fams]
+        sub = [it for it in items if it[1] in fams or ("premerge" in fams and it[1] == "merge" and has_pre(it[2]))
+               or ("asof-empties" in fams and it[0].startswith("s"))]
         results = pmap(_work, sub, chunk=8)
         sigs = {}
         for it, res in zip(sub, results):
@@ -964,6 +1010,15 @@ def selftest(ctx):
                                                      "dfs[i].divisions[-1] <= dfs[i + 1].divisions[0]"))]),
         ("merge_asof_padded: the tail of the previous right partitions is no longer prepended", {"asof"},
          [(multi, "merge_asof_padded", padded), (ma, "merge_asof_padded", padded)]),
+        # partitioning knowledge wrongly lets an operation skip its own shuffle
+        ("Merge._on_condition_already_partitioned: an operand hash-partitioned on columns that merely OVERLAP the join keys counts as partitioned", {"premerge"},
+         [(mm.Merge, "_on_condition_already_partitioned",
+           mutate(vars(mm.Merge)["_on_condition_already_partitioned"], "result = tuple(on) in expr.unique_partition_mapping_columns_from_shuffle",
+                  "result = any(set(c if isinstance(c, tuple) else (c,)) & set(on) for c in expr.unique_partition_mapping_columns_from_shuffle)"))]),
+        ("Merge._lower: an already partitioned LEFT operand keeps its partitions even when the partition counts differ", {"premerge"},
+         [(mm.Merge, "_lower", mutate(vars(mm.Merge)["_lower"], "left_already_partitioned and self.left.npartitions == shuffle_npartitions", "left_already_partitioned"))]),
+        ("most_recent_tail: an EMPTY right partition hands on nothing instead of the tail it inherited", {"asof-empties"},
+         [(ma, "most_recent_tail", mutate(ma.most_recent_tail, "return left", "return right"))]),
     ]
     for name, fams, patches in mutants:
         with contextlib.ExitStack() as st:
